@@ -356,20 +356,34 @@ Section Machine.
   (* ---------------- FindModuleByNamespace *)
   Inductive nsres := NsFound (id : N) | NsNone | NsAmbiguous.
 
-  (* the loop over ms.Modules (every module object is met, once or twice; "case m == found" skips the repeat) *)
-  Fixpoint ns_scan (ns : str) (found : option N) (ms : list ghdr) : nsres :=
+  (* ms.Modules[name]: the module object filed under the bare name, i.e. the most recent loaded revision *)
+  Definition holder_of (r : mstate) (ms : list ghdr) (name : str) : option ghdr :=
+    match mget (Modules r) name with
+    | Some h => lookup_mod ms (h_id h)
+    | None => None
+    end.
+
+  (* the loop over ms.Modules (every module object is met, once or twice).
+       case m == found:                             the same object again
+       case found != nil && found.Name == m.Name:   another revision of the same module: found = ms.Modules[m.Name]
+       case found != nil:                           a different module: "matches two or more modules"
+       default:                                     found = m *)
+  Fixpoint ns_scan (holder : str -> option ghdr) (ns : str) (found : option ghdr) (ms : list ghdr) : nsres :=
     match ms with
-    | [] => match found with Some id => NsFound id | None => NsNone end
+    | [] => match found with Some f => NsFound (gid f) | None => NsNone end
     | g :: r =>
         match gkind g with
-        | KSub => ns_scan ns found r
+        | KSub => ns_scan holder ns found r
         | KMod =>
             if str_eqb (g_ns g) ns then
               match found with
-              | Some id => if N.eqb id (gid g) then ns_scan ns found r else NsAmbiguous
-              | None => ns_scan ns (Some (gid g)) r
+              | Some f =>
+                  if N.eqb (gid f) (gid g) then ns_scan holder ns found r
+                  else if str_eqb (gname f) (gname g) then ns_scan holder ns (holder (gname g)) r
+                  else NsAmbiguous
+              | None => ns_scan holder ns (Some g) r
               end
-            else ns_scan ns found r
+            else ns_scan holder ns found r
         end
     end.
 
@@ -377,7 +391,7 @@ Section Machine.
     match aget str_eqb (byns st) ns with
     | Some id => (st, NsFound id)
     | None =>
-        let r := ns_scan ns None (filed_values (reg st) (mods st)) in
+        let r := ns_scan (holder_of (reg st) (mods st)) ns None (filed_values (reg st) (mods st)) in
         match r with
         | NsFound id =>
             ({| reg := reg st; mods := mods st; tdict := tdict st; includes := includes st; merged := merged st;
@@ -427,6 +441,7 @@ Arguments NewState {obs}.
 Arguments reg {obs}. Arguments mods {obs}. Arguments tdict {obs}. Arguments includes {obs}. Arguments merged {obs}.
 Arguments ecache {obs}. Arguments idict {obs}. Arguments binds {obs}. Arguments tmemo {obs}. Arguments byns {obs}.
 Arguments filed_values : clear implicits.
+Arguments holder_of : clear implicits.
 Arguments accept {obs}. Arguments load_items {obs}. Arguments load_items_d40 {obs}. Arguments load {obs}.
 Arguments p_init {obs}. Arguments view_of {obs}. Arguments Process {obs}. Arguments QueryNS {obs}.
 Arguments step {obs}. Arguments run {obs}. Arguments read_entries {obs}.
